@@ -45,6 +45,8 @@ THEOREMS = [
     "Nix.C18.C18_shape_collect",
     "Nix.C18.C18_shape_tests",
     "Nix.C18.C18_shape_conversion",
+    "Nix.C18.C18_values_never_lost",
+    "Nix.C18.C18_failed_stays_old",
     "Nix.C18.C18_inside_never_rescheduled",
     "Nix.C18.C18_inside_dim",
     "Nix.C18.C18_inside_counterexample",
@@ -1058,9 +1060,9 @@ def run_cases(ctx, cases):
                 kss = histories_for(ctx.rng, n, exhaustive=(n <= 12 or not ctx.quick()))
                 # cuts inside a property conversion (model: interruptInside), then a re-run; and two cuts in a row
                 psteps = [j for j, s in enumerate(st["ok"]) if s[0] == "prop"]
-                pick = psteps if not ctx.quick() else ctx.rng.sample(psteps, min(len(psteps), 2))
+                pick = ctx.rng.sample(psteps, min(len(psteps), 2 if ctx.quick() else 4))
                 for j in pick:
-                    for cc in (range(0, 7) if not ctx.quick() else ctx.rng.sample(range(0, 5), 2)):
+                    for cc in ctx.rng.sample(range(0, 6), 2 if ctx.quick() else 3):
                         kss.append([[j, cc], None])
                 if len(psteps) > 1:
                     kss.append([[psteps[0], ctx.rng.randrange(3)], [0, ctx.rng.randrange(3)], None, None])
@@ -1211,7 +1213,7 @@ def gen_cases(ctx):
     rng = ctx.rng
     lib = lib_version()
     cases = []
-    n_small, n_large, n_tiny = ctx.budget((40, 4, 16), (400, 60, 160))
+    n_small, n_large, n_tiny = ctx.budget((34, 3, 14), (400, 60, 160))
     for _ in range(n_tiny):
         cases.append({"spec": gen_spec(rng, lib, "tiny", shape=rng.choice(["old", "old", "mixed", "mid", None])),
                       "lib": lib})
